@@ -618,6 +618,60 @@ pub fn mutate_lincode_proof(kind: &str, pf: &Vec<ark_poly_commit::linear_codes::
     Some(v)
 }
 
+/// model inputs of one linear-code commitment: dimensions, the vector arranged into the matrix, the encoder (the FFT domain
+/// generator of the Reed-Solomon code, or the generator matrix = images of the unit messages under the library's own
+/// encoder), and the number of queries the library's calculate_t yields for the codeword length
+fn lincode_model_inputs<L, P>(i: usize, ck: &L::LinCodePCParams, p: &P, cm: &Cm<LigeroUniA>, reed_solomon: bool, out: &mut Out)
+where
+    P: ark_poly::Polynomial<Fr>,
+    L: ark_poly_commit::linear_codes::LinearEncode<Fr, MTConfig, P, ColH<Fr>>,
+{
+    use ark_poly::EvaluationDomain;
+    use ark_poly_commit::linear_codes::{verif_hooks as lh, LinCodeParametersInfo};
+    let (n_rows, n_cols, n_ext) = lh::commitment_metadata(cm);
+    out.input(&format!("dims.{}", i), &[n_rows.to_string(), n_cols.to_string(), n_ext.to_string()]);
+    let dash = |v: Vec<String>| if v.is_empty() { vec!["-".to_string()] } else { v };
+    out.input(&format!("coeffs.{}", i), &dash(fs_to_strs(&L::poly_to_vec(p))));
+    if i == 0 { out.input("wf", &[if ck.check_well_formedness() { "1".into() } else { "0".into() }]); }
+    match guard_any(|| lh::calculate_t::<Fr>(ck.sec_param(), ck.distance(), n_ext)).ok() {
+        Some(t) => out.input(&format!("t.{}", i), &[t.to_string()]),
+        None => out.input(&format!("t.{}", i), &["err".to_string()]),
+    }
+    if reed_solomon {
+        match ark_poly::GeneralEvaluationDomain::<Fr>::new(n_ext) {
+            Some(dom) if dom.size() == n_ext => out.input(&format!("omega.{}", i), &[f_to_str(&dom.group_gen())]),
+            _ => out.input(&format!("omega.{}", i), &["none".to_string()]),
+        }
+    } else {
+        for k in 0..n_cols {
+            let mut e = vec![Fr::zero(); n_cols];
+            e[k] = Fr::from(1u64);
+            match guard_any(|| L::encode(&e, ck)).ok() {
+                Some(g) => out.input(&format!("G.{}.{}", i, k), &fs_to_strs(&g)),
+                None => out.input(&format!("G.{}.{}", i, k), &["none".to_string()]),
+            }
+        }
+    }
+}
+
+/// a linear-code proof array as tokens (observables of honest proofs, inputs for proofs handed to the model)
+fn lincode_proof_tokens(name: &str, pf: &Vec<ark_poly_commit::linear_codes::LinCodePCProof<Fr, MTConfig>>, as_input: bool, out: &mut Out) {
+    use ark_poly_commit::linear_codes::verif_hooks as lh;
+    let dash = |v: Vec<String>| if v.is_empty() { vec!["-".to_string()] } else { v };
+    if as_input { out.input(&format!("{}.n", name), &[pf.len().to_string()]); } else { out.obs1(&format!("{}.n", name), "N", pf.len().to_string()); }
+    for (i, p) in pf.iter().enumerate() {
+        let (paths, v, cols, wf) = lh::proof_parts(p);
+        let items: Vec<(String, &str, Vec<String>)> = vec![
+            (format!("{}.{}.v", name, i), "F", dash(fs_to_strs(v))),
+            (format!("{}.{}.wf", name, i), "F", match wf { Some(w) => dash(fs_to_strs(w)), None => vec!["none".into()] }),
+            (format!("{}.{}.leaf_idx", name, i), "N", dash(paths.iter().map(|q| q.leaf_index.to_string()).collect())),
+            (format!("{}.{}.col_lens", name, i), "N", dash(cols.iter().map(|x| x.len().to_string()).collect())),
+            (format!("{}.{}.cols", name, i), "F", dash(cols.iter().flat_map(|x| fs_to_strs(x)).collect())),
+        ];
+        for (k, t, v) in items { if as_input { out.input(&k, &v); } else { out.obs(&k, t, &v); } }
+    }
+}
+
 pub struct LigeroUniA;
 /// Ligero parameters other than the ones hard-wired in `setup` (security level, rate, well-formedness switch)
 fn lincode_shape_comm(cm: &Cm<LigeroUniA>) -> Vec<String> {
@@ -727,6 +781,13 @@ impl Adapter for LigeroUniA {
         guard_any(|| LigeroUniPC::setup(c.usize1("max_degree"), opt_usize(c.str1("num_vars")), &mut rng))
     }
     fn mutate_proof(kind: &str, pf: &Pf<Self>, args: &[String]) -> Option<Pf<Self>> { mutate_lincode_proof(kind, pf, args) }
+    fn model_inputs(i: usize, ck: &CK<Self>, p: &UniPoly, cm: &Cm<Self>, out: &mut Out) {
+        lincode_model_inputs::<UnivariateLigero<Fr, MTConfig, UniPoly, ColH<Fr>>, UniPoly>(i, ck, p, cm, true, out)
+    }
+    fn point_input(j: usize, pt: &Fr, out: &mut Out) { out.input(&format!("ptvec.{}", j), &[f_to_str(pt)]); }
+    fn proof_obs(name: &str, pf: &Pf<Self>, out: &mut Out) { lincode_proof_tokens(name, pf, false, out) }
+    fn proof_input(name: &str, pf: &Pf<Self>, out: &mut Out) { lincode_proof_tokens(name, pf, true, out) }
+    fn wants_sq_events() -> bool { true }
     fn reference_commitment(ck: &CK<Self>, p: &UniPoly, _b: Option<usize>, cm: &Cm<Self>, _st: &St<Self>) -> Option<bool> {
         reference_root::<UnivariateLigero<Fr, MTConfig, UniPoly, ColH<Fr>>, UniPoly>(ck, p.coeffs.clone(), cm)
     }
@@ -747,6 +808,17 @@ impl Adapter for LigeroMLA {
         guard_any(|| LigeroMLPC::setup(c.usize1("max_degree"), opt_usize(c.str1("num_vars")), &mut rng))
     }
     fn mutate_proof(kind: &str, pf: &Pf<Self>, args: &[String]) -> Option<Pf<Self>> { mutate_lincode_proof(kind, pf, args) }
+    fn model_inputs(i: usize, ck: &CK<Self>, p: &Self::P, cm: &Cm<Self>, out: &mut Out) {
+        lincode_model_inputs::<MultilinearLigero<Fr, MTConfig, SparseMultilinearExtension<Fr>, ColH<Fr>>, SparseMultilinearExtension<Fr>>(i, ck, p, cm, true, out)
+    }
+    fn point_input(j: usize, pt: &Vec<Fr>, out: &mut Out) {
+        use ark_poly_commit::linear_codes::LinearEncode;
+        let v = <MultilinearLigero<Fr, MTConfig, SparseMultilinearExtension<Fr>, ColH<Fr>> as LinearEncode<Fr, MTConfig, SparseMultilinearExtension<Fr>, ColH<Fr>>>::point_to_vec(pt.clone());
+        out.input(&format!("ptvec.{}", j), &{ let t = fs_to_strs(&v); if t.is_empty() { vec!["-".into()] } else { t } });
+    }
+    fn proof_obs(name: &str, pf: &Pf<Self>, out: &mut Out) { lincode_proof_tokens(name, pf, false, out) }
+    fn proof_input(name: &str, pf: &Pf<Self>, out: &mut Out) { lincode_proof_tokens(name, pf, true, out) }
+    fn wants_sq_events() -> bool { true }
     fn reference_commitment(ck: &CK<Self>, p: &Self::P, _b: Option<usize>, cm: &Cm<Self>, _st: &St<Self>) -> Option<bool> {
         use ark_poly::MultilinearExtension;
         reference_root::<MultilinearLigero<Fr, MTConfig, SparseMultilinearExtension<Fr>, ColH<Fr>>, SparseMultilinearExtension<Fr>>(ck, p.to_evaluations(), cm)
@@ -776,6 +848,17 @@ impl Adapter for BrakedownMLA {
         guard_any(|| BrakedownMLPC::setup(c.usize1("max_degree"), opt_usize(c.str1("num_vars")), &mut rng))
     }
     fn mutate_proof(kind: &str, pf: &Pf<Self>, args: &[String]) -> Option<Pf<Self>> { mutate_lincode_proof(kind, pf, args) }
+    fn model_inputs(i: usize, ck: &CK<Self>, p: &Self::P, cm: &Cm<Self>, out: &mut Out) {
+        lincode_model_inputs::<MultilinearBrakedown<Fr, MTConfig, SparseMultilinearExtension<Fr>, ColH<Fr>>, SparseMultilinearExtension<Fr>>(i, ck, p, cm, false, out)
+    }
+    fn point_input(j: usize, pt: &Vec<Fr>, out: &mut Out) {
+        use ark_poly_commit::linear_codes::LinearEncode;
+        let v = <MultilinearBrakedown<Fr, MTConfig, SparseMultilinearExtension<Fr>, ColH<Fr>> as LinearEncode<Fr, MTConfig, SparseMultilinearExtension<Fr>, ColH<Fr>>>::point_to_vec(pt.clone());
+        out.input(&format!("ptvec.{}", j), &{ let t = fs_to_strs(&v); if t.is_empty() { vec!["-".into()] } else { t } });
+    }
+    fn proof_obs(name: &str, pf: &Pf<Self>, out: &mut Out) { lincode_proof_tokens(name, pf, false, out) }
+    fn proof_input(name: &str, pf: &Pf<Self>, out: &mut Out) { lincode_proof_tokens(name, pf, true, out) }
+    fn wants_sq_events() -> bool { true }
     fn reference_commitment(ck: &CK<Self>, p: &Self::P, _b: Option<usize>, cm: &Cm<Self>, _st: &St<Self>) -> Option<bool> {
         use ark_poly::MultilinearExtension;
         reference_root::<MultilinearBrakedown<Fr, MTConfig, SparseMultilinearExtension<Fr>, ColH<Fr>>, SparseMultilinearExtension<Fr>>(ck, p.to_evaluations(), cm)
